@@ -260,3 +260,7 @@ def run(chk, repo):
         chk.ob('C20.f', f"{nm}: after the tail fill the decoy has len(seq) residues", repo.loc(f, fills[0]) if fills else f.where, ok,
                f"{nm}: {detail}: with duplicated or out-of-range fixed indices the count of list entries differs from the number of missing residues, so the decoy "
                "gains / loses residues and is no longer a rearrangement of the target", key=f.qual + '::tail-fill', fn=f.qual)
+    # ------------------------------------------------------------------ shared: option plumbing by name
+    from rules.shared import optname
+    chk.clauses.append('C20.g (shared R-THREAD) an option value bound to a name that is itself a CLI option carries that very option')
+    optname(chk, repo, 'C20.g', ['cli.decoy_fasta'], floor=0)
